@@ -84,27 +84,44 @@ def check_plain_state(fx, rep):
     if len(rows) < 10:
         rep.undecided('R1-changeset', 'to_plain_state', 'only %d loop-body paths recognised' % len(rows), f.where())
         return
+    # the outer iterator is the one the complete (empty-state) path asks; the other `next` belongs
+    # to the slot loop: Some = one slot iteration, None = the per-account tail
+    outer = set()
+    for r in rs:
+        if not r.cut:
+            outer |= {render(l[0]) for l in r.lits if render(l[0]).startswith('discr(next(')}
+
+    def possible(formula, a, atoms):
+        """values the formula can take over the atoms the path left undecided"""
+        free = [x for x in atoms if x not in a]
+        out = set()
+        for vals in itertools.product((False, True), repeat=len(free)):
+            env = dict(a)
+            env.update(zip(free, vals))
+            out.add(bool(formula(env)))
+        return out
+
     bad = {}
     n = {'account': 0, 'slot': 0, 'entry': 0}
     for a, pushes, r in rows:
         targets = [t for t, _ in pushes]
-        # account entry
-        if 'NK' in a:
-            want = a['NK'] or a.get('IC', False)
-            if a['NK'] or 'IC' in a:
-                n['account'] += 1
-                if ('accounts' in targets) != want:
-                    bad.setdefault('account-entry', 'account info %s when not_known=%s, info_changed=%s' % ('emitted' if 'accounts' in targets else 'omitted', a['NK'], a.get('IC')))
-        if 'EMP' in a:
-            # tail of the per-account iteration: storage entry
-            if 'WD' not in a and a['EMP']:
-                bad.setdefault('storage-entry', 'an account without emitted slots is decided without consulting was_destroyed(): a wiped account with no remaining slots would leave its old storage in the plain state')
-                continue
-            want = (not a['EMP']) or a.get('WD', False)
+        inner = [lit_truth(l[1]) for l in r.lits if render(l[0]).startswith('discr(next(') and render(l[0]) not in outer]
+        in_slot = bool(inner) and inner[-1] is True
+        # account entry: emitted iff not known or info changed (decided with the atoms the path tested)
+        n['account'] += 1
+        w = possible(lambda e: e['NK'] or e['IC'], a, ('NK', 'IC'))
+        if w != {'accounts' in targets}:
+            bad.setdefault('account-entry', 'account info %s when not_known=%s, info_changed=%s' % ('emitted' if 'accounts' in targets else 'omitted', a.get('NK', 'untested'), a.get('IC', 'untested')))
+        if not inner:
+            continue
+        if not in_slot:
+            # tail of the per-account iteration: storage entry emitted iff it has slots or was wiped
             n['entry'] += 1
             got = 'storage' in targets
-            if got != want:
-                bad.setdefault('storage-entry', 'storage entry %s when it has %s slots and was_destroyed=%s' % ('emitted' if got else 'omitted', 'no' if a['EMP'] else 'some', a.get('WD')))
+            w = possible(lambda e: (not e['EMP']) or e['WD'], a, ('EMP', 'WD'))
+            if w != {got}:
+                bad.setdefault('storage-entry', 'storage entry %s with is_empty=%s, was_destroyed=%s (a wiped account without remaining slots must still be emitted, an untouched one must not)' % (
+                    'emitted' if got else 'omitted', a.get('EMP', 'untested'), a.get('WD', 'untested')))
             for t, v in pushes:
                 if t == 'storage' and v is not None:
                     txt = render(v)
@@ -113,21 +130,15 @@ def check_plain_state(fx, rep):
                         ws = v[4][v[3].index('wipe_storage')]
                     if ws is None or 'was_destroyed' not in render(ws):
                         bad.setdefault('wipe-flag', 'the emitted wipe_storage flag is %s, not was_destroyed()' % (render(ws) if ws else txt[:60]))
-        elif 'NK' in a:
-            # one slot iteration (the per-account tail always evaluates is_empty())
-            nk = a.get('NK', False)
-            if not nk and 'WD' not in a:
-                bad.setdefault('slot-guard', 'slot decision does not depend on was_destroyed()')
-                continue
-            wd = a.get('WD', False)
-            want = nk or (wd and not a.get('Z', True)) or ((not wd) and a.get('CH', False))
-            if not nk and ((wd and 'Z' not in a) or (not wd and 'CH' not in a)):
-                bad.setdefault('slot-guard', 'slot decision does not test %s for was_destroyed=%s' % ('present != 0' if wd else 'is_changed()', wd))
-                continue
+        else:
             n['slot'] += 1
             got = 'account_storage_changed' in targets
-            if got != want:
-                bad.setdefault('slot-entry', 'slot %s when not_known=%s, was_destroyed=%s, present_zero=%s, changed=%s' % ('emitted' if got else 'omitted', nk, wd, a.get('Z'), a.get('CH')))
+            w = possible(lambda e: e['NK'] or (e['WD'] and not e['Z']) or ((not e['WD']) and e['CH']), a, ('NK', 'WD', 'Z', 'CH'))
+            if len(w) != 1:
+                bad.setdefault('slot-guard', 'a slot is %s after testing only %s: the decision needs not_known, was_destroyed and present != 0 / is_changed()' % (
+                    'emitted' if got else 'omitted', {k_: v for k_, v in a.items() if k_ in ('NK', 'WD', 'Z', 'CH')}))
+            elif w != {got}:
+                bad.setdefault('slot-entry', 'slot %s when not_known=%s, was_destroyed=%s, present_zero=%s, changed=%s' % ('emitted' if got else 'omitted', a.get('NK'), a.get('WD'), a.get('Z'), a.get('CH')))
             for t, v in pushes:
                 if t == 'account_storage_changed' and v is not None and 'present_value' not in render(v):
                     bad.setdefault('slot-value', 'the value written for a slot is %s, not its present value' % render(v)[:80])
